@@ -31,11 +31,8 @@ IsEvent(name) == /\ l <= Len(Traces[tid].events)
                  /\ l' = l + 1
                  /\ UNCHANGED tid
 (* the logged post-state must be the one the specification action produces *)
-(* the invariants are conjoined to the trace actions as guards on the next state: TLC stops at the first
-   violated INVARIANT, which would leave the remaining traces of the batch unexplored *)
 Logged == /\ q' = Tup4(Ev.q)
           /\ R' = << Mat3(Ev.R), Ev.den >>
-          /\ Faithful' /\ ProperRot'
 
 TMulRight == IsEvent("MulRight") /\ MulRight(Ev.route, Tup4(Ev.v)) /\ Logged
 TMulLeft  == IsEvent("MulLeft")  /\ MulLeft(Ev.route, Tup4(Ev.v))  /\ Logged
@@ -50,7 +47,10 @@ TToQuat   == IsEvent("ToQuat") /\ ToQuat(Ev.route, Ev.disp) /\ Logged
 TraceNext == TToQuat \/ TMulRight \/ TMulLeft \/ TConj \/ TNeg \/ TConvert \/ TRotate
 TraceSpec == TraceInit /\ [][TraceNext]_tvars
 
-Progress == LET f == TLCGet(1) IN IF f[tid] < l THEN TLCSet(1, [f EXCEPT ![tid] = l]) ELSE TRUE
+(* a state that violates an invariant is pruned and does not count as progress (an INVARIANT in the cfg would stop
+   the whole batch at the first violation; priming the invariants into the actions is an order of magnitude slower) *)
+TraceInv == Faithful /\ ProperRot
+Progress == TraceInv /\ (LET f == TLCGet(1) IN IF f[tid] < l THEN TLCSet(1, [f EXCEPT ![tid] = l]) ELSE TRUE)
 Accepted == LET f == TLCGet(1) IN
             \A t \in 1..Len(Traces) :
                \/ f[t] = Len(Traces[t].events) + 1
